@@ -49,6 +49,13 @@ pub const PLAIN: &str = "(define-library (plain)
     (define (own-of) own)
     (define (bump-own!) (set! own 'bumped) own)))";
 
+/// a library whose body faults while it is being evaluated (after it imported clib)
+pub const BROKEN: &str = "(define-library (broken)
+  (export bv)
+  (import (scheme base) (clib))
+  (begin
+    (define bv (car '()))))";
+
 /// reference view of the libraries: exports (internal, external), imported libraries, body
 struct LibDef {
     exports: Vec<(&'static str, &'static str)>,
@@ -115,6 +122,8 @@ pub struct Config {
     pub name: &'static str,
     /// the import declaration of the program
     pub import: &'static str,
+    /// further import declarations evaluated after it, before any other form: (text, succeeds?)
+    pub more_imports: &'static [(&'static str, bool)],
     /// (library, renames applied: (external name -> name in importer); None = all under their own names)
     pub sets: Vec<(&'static str, Option<Vec<(&'static str, &'static str)>>)>,
     pub file_supply: bool,
@@ -123,18 +132,35 @@ pub struct Config {
 pub fn configs() -> Vec<Config> {
     let mut out = vec![];
     for file_supply in [false, true] {
-        out.push(Config { name: "P->L", import: "(import (scheme base) (clib))", sets: vec![("clib", None)], file_supply });
-        out.push(Config { name: "P->L,P->M->L", import: "(import (scheme base) (clib) (mlib))", sets: vec![("clib", None), ("mlib", None)], file_supply });
-        out.push(Config { name: "P->M->L only", import: "(import (scheme base) (mlib))", sets: vec![("mlib", None)], file_supply });
+        out.push(Config { name: "P->L", import: "(import (scheme base) (clib))", sets: vec![("clib", None)], more_imports: &[], file_supply });
+        out.push(Config { name: "P->L,P->M->L", import: "(import (scheme base) (clib) (mlib))", sets: vec![("clib", None), ("mlib", None)], more_imports: &[], file_supply });
+        out.push(Config { name: "P->M->L only", import: "(import (scheme base) (mlib))", sets: vec![("mlib", None)], more_imports: &[], file_supply });
         out.push(Config {
             name: "P->L twice",
             import: "(import (scheme base) (only (clib) next readg) (rename (except (clib) readg) (next next2) (look look2) (setn! setn2!)))",
             sets: vec![("clib", Some(vec![("next", "next"), ("readg", "readg")])), ("clib", Some(vec![("next", "next2"), ("look", "look2"), ("setn!", "setn2!"), ("step", "step"), ("use-step", "use-step"), ("sa", "sa"), ("sb", "sb"), ("advance", "advance"), ("look-too", "look-too")]))],
+            more_imports: &[],
             file_supply,
         });
-        out.push(Config { name: "P->plain (no import declaration)", import: "(import (scheme base) (plain))", sets: vec![("plain", None)], file_supply });
-        out.push(Config { name: "P->L,P->plain", import: "(import (scheme base) (clib) (plain))", sets: vec![("clib", None), ("plain", None)], file_supply });
-        out.push(Config { name: "P->M then P->L", import: "(import (scheme base) (mlib) (clib))", sets: vec![("mlib", None), ("clib", None)], file_supply });
+        out.push(Config { name: "P->plain (no import declaration)", import: "(import (scheme base) (plain))", sets: vec![("plain", None)], more_imports: &[], file_supply });
+        out.push(Config { name: "P->L,P->plain", import: "(import (scheme base) (clib) (plain))", sets: vec![("clib", None), ("plain", None)], more_imports: &[], file_supply });
+        // several declarations, one of them failing while a library is being evaluated: the
+        // libraries imported before and after it still share one instance of clib
+        out.push(Config {
+            name: "P->L ; failing import ; P->M->L",
+            import: "(import (scheme base) (clib))",
+            sets: vec![("clib", None), ("mlib", None)],
+            more_imports: &[("(import (broken))", false), ("(import (mlib))", true)],
+            file_supply,
+        });
+        out.push(Config {
+            name: "failing import ; P->M->L ; P->L",
+            import: "(import (scheme base))",
+            sets: vec![("mlib", None), ("clib", None)],
+            more_imports: &[("(import (broken))", false), ("(import (mlib))", true), ("(import (broken))", false), ("(import (clib))", true)],
+            file_supply,
+        });
+        out.push(Config { name: "P->M then P->L", import: "(import (scheme base) (mlib) (clib))", sets: vec![("mlib", None), ("clib", None)], more_imports: &[], file_supply });
     }
     out
 }
@@ -176,6 +202,7 @@ impl Sys {
         std::fs::write(dir.join("clib.sld"), CLIB).unwrap();
         std::fs::write(dir.join("mlib.sld"), MLIB).unwrap();
         std::fs::write(dir.join("plain.sld"), PLAIN).unwrap();
+        std::fs::write(dir.join("broken.sld"), BROKEN).unwrap();
         Sys { cfg, ops: OPS.iter().map(|o| parse1(o)).collect(), probes: PROBES.iter().map(|o| parse1(o)).collect(), dir }
     }
     fn start(&self) -> (Interp, Machine) {
@@ -187,9 +214,14 @@ impl Sys {
             it.it.register_library_factory(LibraryFactory::from_char_stream(&library_name!("clib"), CLIB.chars()).expect("clib source"));
             it.it.register_library_factory(LibraryFactory::from_char_stream(&library_name!("mlib"), MLIB.chars()).expect("mlib source"));
             it.it.register_library_factory(LibraryFactory::from_char_stream(&library_name!("plain"), PLAIN.chars()).expect("plain source"));
+            it.it.register_library_factory(LibraryFactory::from_char_stream(&library_name!("broken"), BROKEN.chars()).expect("broken source"));
         }
         let o = it.eval(c.import);
         assert!(matches!(o, Outcome::Val(_)), "import failed on the implementation: {} => {}", c.import, o);
+        for (decl, _succeeds) in c.more_imports {
+            // (whether each declaration succeeds is C14's subject; here only what is bound counts)
+            let _ = it.eval(decl);
+        }
         // reference: import into the program's global environment
         let mut m = Machine::new(POLICIES[0]);
         let mut mods = RefModules { instances: HashMap::new() };
@@ -299,7 +331,7 @@ pub fn run(ctx: &Ctx) -> i32 {
             bounds: json!({"depth": depth, "per_configuration": per_cfg}),
             assumptions: vec!["reference module system: one instance per library per program, library environments see only their imports and definitions".into()],
             wall_s: ctx.elapsed(),
-            extra: json!({"clib": CLIB, "mlib": MLIB, "plain": PLAIN, "operations": OPS, "probes": PROBES}),
+            extra: json!({"clib": CLIB, "mlib": MLIB, "plain": PLAIN, "broken": BROKEN, "operations": OPS, "probes": PROBES}),
         },
     )
 }
